@@ -1,6 +1,8 @@
 #!/usr/bin/env python3
 """Generates the json encode-side specs (C01, C15, C14, C06) from the shape table of harness/json/shapes.go."""
-import json, os
+import json, os, sys
+sys.path.insert(0, os.path.dirname(os.path.abspath(__file__)))
+from cap_thorough import cap_spec
 root = os.path.dirname(os.path.dirname(os.path.abspath(__file__)))
 ov = ["harness/json"]
 # index, name, uses vfLen (string length), uses vfLen2
@@ -45,7 +47,7 @@ for i, n, ulen, ulen2 in shapes:
     c14["units"].append(unit("H14-enc-" + n, "all AppendFlags subsets (shape %s)" % n, "vfH_c14_enc", g, ["done"], split={"all": 6}))
 rt_shapes = [x for x in shapes if x[0] in (0, 1, 2, 3, 4, 5, 6, 7, 9, 10)]
 for i, n, ulen, ulen2 in rt_shapes:
-    g = {"vfShape": {"all": [i]}, "vfRT": {"all": [1]}, "vfLen": lens(ulen, [1], [0, 1, 2]), "vfLen2": lens(ulen2, [2], [0, 2, 3]), "vfFlags": {"quick": [15, 5], "thorough": [0, 1, 2, 4, 8, 15, 5, 10]}}
+    g = {"vfShape": {"all": [i]}, "vfRT": {"all": [1]}, "vfLen": lens(ulen, [1], [0, 1, 2]), "vfLen2": lens(ulen2, [2], [0, 2, 3]), "vfFlags": {"quick": [15, 5], "thorough": [0, 15, 5, 10]}}
     c14["units"].append(unit("H14-dec-" + n, "Parse(default output, subset of DontCopyString|DontCopyNumber|DontCopyRawMessage|DontMatchCaseInsensitiveStructFields) restores the value (shape %s)" % n, "vfH_c14_dec", g, ["done"], split={"all": 6}))
 c14["units"].append(unit("H14-num-free", "all 16 subsets of UseNumber|UseBigInt|UseInt64|UseUint64 on every valid number literal of the length parsed into an interface: dynamic type by documented precedence, value preserved", "vfH_c14_num",
                          {"vfMode": {"all": [0]}, "vfLen": {"quick": "1..3", "thorough": "1..4"}, "vfFlags": {"all": "0..15"}}, ["uint64", "int64", "big", "Number", "float64"]))
@@ -69,7 +71,10 @@ seq = unit("H06-seq", "a call that fails half-way (encode: invalid RawMessage / 
            {"vfMode": {"all": "0..6"}, "vfFlags": {"quick": [2, 0], "thorough": [0, 1, 2, 3]}}, ["done"])
 c06["units"].append(seq)
 c14["units"].append(dict(seq, name="H14-seq"))
+CAPPED = {"C03", "C07", "C01", "C14", "C06"}  # thorough tier bounded to one deepened variable per unit (see cap_thorough.py)
 for fn, spec in (("C01", c01), ("C15", c15), ("C14", c14), ("C06", c06)):
+    if fn in CAPPED:
+        cap_spec(spec)
     fix_bytes(spec)
     json.dump(spec, open(os.path.join(root, "spec", fn + ".json"), "w"), indent=1)
 print("ok")
